@@ -239,6 +239,43 @@ let run_bcreach = function
     st ^ " " ^ sz s.bc_lo ^ " " ^ sz s.bc_hi ^ " " ^ sz p.bp_min ^ " " ^ sz p.bp_max
   | _ -> "ERR bad bcreach line"
 
+(* x86form|w|<one-instruction bytecode program text>|<x86 code>  ->  ok | bad <why>
+   x86 code: instructions separated by ';', operands r<idx>.<size> c<cell> s<slot> i<imm>;
+   lea <dst> <base> <index or -> <disp> *)
+let parse_xop (t : Stdlib.String.t) : xop =
+  let rest = String.sub t 1 (String.length t - 1) in
+  match t.[0] with
+  | 'r' -> (match split_on '.' rest with [r; sz] -> XReg (zs r, zs sz) | _ -> failwith ("bad reg " ^ t))
+  | 'c' -> XCell (zs rest)
+  | 's' -> XSlot (zs rest)
+  | 'i' -> XImm (zs rest)
+  | _ -> failwith ("bad operand " ^ t)
+let parse_xins (l : Stdlib.String.t) : xins =
+  match List.filter (fun x -> x <> "") (split_on ' ' l) with
+  | ["mov"; d; s] -> XMov (parse_xop d, parse_xop s)
+  | ["add"; d; s] -> XAdd (parse_xop d, parse_xop s)
+  | ["sub"; d; s] -> XSub (parse_xop d, parse_xop s)
+  | ["inc"; d] -> XInc (parse_xop d)
+  | ["dec"; d] -> XDec (parse_xop d)
+  | ["imul"; d; s] -> XImul2 (parse_xop d, parse_xop s)
+  | ["imul"; d; s; i] -> XImul3 (parse_xop d, parse_xop s, zs i)
+  | ["lea"; d; b; idx; disp] -> XLea (zs d, zs b, (if idx = "-" then None else Some (zs idx)), zs disp)
+  | _ -> failwith ("bad x86 instruction " ^ l)
+let run_x86form = function
+  | [w; bc; code] ->
+    let w = zs w in
+    let p = parse_bc (toks_of bc) in
+    (match p.bp_code, p.bp_live with
+     | [i], [live] ->
+       let xs = List.map parse_xins (List.filter (fun x -> String.trim x <> "") (split_on ';' code)) in
+       if form_ok w i live xs then "ok"
+       else (match form_spec w i, srun w xs sst0 with
+           | None, _ -> "bad no-spec"
+           | _, None -> "bad symbolic-evaluation-rejected"
+           | Some _, Some _ -> "bad mismatch")
+     | _ -> "ERR need exactly one instruction")
+  | _ -> "ERR bad x86form line"
+
 (* parse|w|cp,cp,cp,... *)
 let run_parse = function
   | [w; cps] ->
@@ -616,7 +653,7 @@ let run_bcmem = function
      | _ -> "notdone")
   | _ -> "ERR bad bcmem line"
 
-let handlers : (Stdlib.String.t * (Stdlib.String.t list -> Stdlib.String.t)) list ref = ref [ ("cell", run_cell); ("bf", run_bf); ("inplace", run_inplace); ("ir", run_ir); ("bc", run_bc); ("bcreach", run_bcreach); ("parse", run_parse); ("bfbig", run_bfbig); ("bcmem", run_bcmem); ("formsnf", run_formsnf); ("shapes", run_shapes); ("cli", run_cli); ("bcwf", run_bcwf); ("bfx", run_bfx); ("expr", run_expr); ("svec", run_svec); ("tape", run_tape); ("rawproto", run_rawproto); ("bfcycle", run_bfcycle); ("irbig", run_irbig) ]
+let handlers : (Stdlib.String.t * (Stdlib.String.t list -> Stdlib.String.t)) list ref = ref [ ("cell", run_cell); ("bf", run_bf); ("inplace", run_inplace); ("ir", run_ir); ("bc", run_bc); ("x86form", run_x86form); ("bcreach", run_bcreach); ("parse", run_parse); ("bfbig", run_bfbig); ("bcmem", run_bcmem); ("formsnf", run_formsnf); ("shapes", run_shapes); ("cli", run_cli); ("bcwf", run_bcwf); ("bfx", run_bfx); ("expr", run_expr); ("svec", run_svec); ("tape", run_tape); ("rawproto", run_rawproto); ("bfcycle", run_bfcycle); ("irbig", run_irbig) ]
 
 let () =
   (try
